@@ -427,6 +427,24 @@ func (tr *gtTr) fuelOf(x *ast.ForStmt, env *venv) string {
 		measure = tr.cfg.fuel[idx]
 	}
 	if measure != "" {
+		// `@var` in a stated measure: the only local variable that the loop assigns (whatever its name)
+		if strings.Contains(measure, "@var") {
+			nodes := []ast.Node{x.Body}
+			if x.Post != nil {
+				nodes = append(nodes, x.Post)
+			}
+			keys, _, _ := tr.assignedIn(nodes, env)
+			var names []string
+			for k := range keys {
+				if k.f == "" {
+					names = append(names, k.v)
+				}
+			}
+			if len(names) != 1 {
+				gtFail("the fuel measure %q of loop %d needs exactly one assigned local variable, found %v", measure, idx, names)
+			}
+			measure = strings.ReplaceAll(measure, "@var", names[0])
+		}
 		e := tr.expr(gtParseExpr(measure), env)
 		if e.typ.kind != kInt || len(e.binds) > 0 {
 			gtFail("the fuel measure %q is not a total integer expression", measure)
